@@ -31,8 +31,8 @@ claimed = {
  "C08": dict(level="exploration", technique="property-based testing (rapid), model-based: generated source sets x prior contents x history-size x lines x accept variants through real Readline calls; per-source list model",
    text="For every generated combination the contents of every bound source (library in-memory, library file-backed, harness recording source) are read through the Source API before the call and after each return and compared with a per-source list model (append-once / skip rules of the statement).",
    note=RIG_NOTE, ref="DESIGN.md §3 C08"),
- "C09": dict(level="exploration", technique="property-based testing (rapid), model-based (stateful): generated histories x in-progress buffers x navigation / search sequences; set-valued walk index model + validity predicates for searches + source comparison",
-   text="Sequences of history navigation, prefix/substring search and incremental search sessions are run one command per read; a set-valued index model predicts what the walk commands may show, validity predicates constrain what searches may put in the buffer, and the bound source is compared with its prior contents afterwards.",
+ "C09": dict(level="exploration", technique="property-based testing (rapid), model-based (stateful): generated histories x in-progress buffers x navigation / search sequences; set-valued walk index model (edits of visited entries, second Readline call on the same shell) + validity predicates for searches + source comparison",
+   text="Sequences of history navigation, prefix/substring search and incremental search sessions are run one command per read; a set-valued index model predicts what the walk commands may show, validity predicates constrain what searches may put in the buffer, and the bound source is compared with its prior contents afterwards; entries shown are edited while walking (the stored entries must stay unchanged) and, after an accept, a second call on the same shell walks the history again.",
    note=RIG_NOTE + " One known finding (cancelled incremental search from an empty line) reported by signature.", ref="DESIGN.md §3 C09"),
  "C10": dict(level="fault_enumeration", technique="property-based testing (rapid) of generated histories + exhaustive enumeration of every truncation offset of the last append (crash points); list-model oracle; native fuzzing of file contents in the thorough tier",
    text="For each generated history every byte offset of the last record is used as a crash point (exhaustively for records up to 600 bytes, first/last 96 bytes plus spread offsets beyond): reopen must succeed, keep the completed entries in order, and a later append must be durable. The histories themselves are sampled, the crash points per history are enumerated: fault enumeration.",
@@ -41,7 +41,7 @@ claimed = {
    text="Every way out of Readline is a generated exit path; the child reports tcgetattr before and after the call, and the VT100 emulator fed with everything the library wrote gives the cursor position, the row contents and the last cursor-style sequence at the moment the call returned (screens are snapshotted when the return marker comes out of the pty).",
    note=RIG_NOTE, ref="DESIGN.md §3 C11"),
  "C20": dict(level="exploration", technique="property-based testing (rapid) over harness-owned schedules: SIGWINCH / TIOCSWINSZ / Shell.Printf delivered at generated moments of generated editing scripts; oracles: no crash or deadlock (goroutine-dump based rest detection), differential against the undisturbed run, C04 screen layout for the current width, race detector (thorough)",
-   text="The child has no controlling terminal, so the only SIGWINCHs are the ones the check sends; the emulator can withhold cursor reports to keep the main loop inside its redisplay while a disturbance is delivered; a command registered by the harness blocks on request to model 'during command execution'.",
+   text="The child has no controlling terminal, so the only SIGWINCHs are the ones the check sends; the emulator can withhold cursor reports to keep the main loop inside its redisplay while a disturbance is delivered; a command registered by the harness blocks on request to model 'during command execution'; type-ahead is delivered in the same terminal write as the report an asynchronous redisplay asks for.",
    note=RIG_NOTE, ref="DESIGN.md §3 C20"),
  "C12": dict(level="exploration", technique="property-based testing (rapid): grammar-derived inputrc texts with generated mutations, raw bytes and include graphs, parsed in a child process under a watchdog; native fuzzing (go test -fuzz) in the thorough tier",
    text="Generated-input search for crashes, stack overflows and non-termination of the inputrc parser over mutated grammar-derived programs, raw bytes, option combinations and include graphs with cycles; the call must return nil or an error. Exploration: the input space is unbounded and the oracle is a totality predicate.",
@@ -55,14 +55,14 @@ claimed = {
  "C15": dict(level="exploration", technique="property-based testing (rapid): generated candidate sets (1..60 values; plain, described, aliased, tagged) x terminal sizes x forward / backward / mixed cycling of length 2N+3; permutation and period oracle on the inserted word",
    text="The word inserted in the line after each menu-complete / menu-complete-backward press is read through the public API; over the first N presses it must be a permutation of the N candidates and the sequence must repeat with period N. Validity predicate (any order is accepted).",
    note=RIG_NOTE, ref="DESIGN.md §3 C15"),
- "C16": dict(level="exploration", technique="property-based testing (rapid): generated buffers x cursor positions x kill commands by name x numeric arguments x kill sequences through real pty sessions; algebraic oracle kill;yank = id and register == removed range",
+ "C16": dict(level="exploration", technique="property-based testing (rapid): generated buffers x cursor positions x kill commands by name x numeric arguments x kill sequences through real pty sessions; algebraic oracle kill;yank = id, register == removed range, and a second yank after an edit inside the yanked text still inserts the killed text",
    text="Every kill command is reached by name on a private key sequence, one command per read so each intermediate buffer and the kill register are observed through the public API; oracle: one contiguous range removed, register equals it, immediate yank restores, most recent kill is what yank inserts.",
-   note=RIG_NOTE + " One known finding (word kills on multi-byte text) excluded by construction and reported from a regress case.", ref="DESIGN.md §3 C16"),
+   note=RIG_NOTE + " Display-only variables are drawn per case.", ref="DESIGN.md §3 C16"),
  "C17": dict(level="exploration", technique="property-based testing (rapid), differential: d<motion> vs y<motion> (and v<motion>d / v<motion>y) from identical generated states in two fresh pty sessions",
    text="For generated buffers, cursor positions, motions/text objects and counts, the register after delete must equal the register after yank, yank must leave the buffer unchanged and delete must remove exactly one contiguous occurrence of that text. Differential oracle needs no model of the motions themselves.",
    note=RIG_NOTE + " Keys one per read.", ref="DESIGN.md §3 C17"),
- "C18": dict(level="exploration", technique="property-based testing (rapid), metamorphic: session [B0, K, K] typed vs session [B0, record K, replay once], emacs and vi macro styles",
-   text="Generated key scripts K (printable, control, ESC-prefixed, CSI, quoted-insert, vi command keys) are typed twice in one session and recorded+replayed in another; final buffer, cursor, keymap and returned line must agree. Metamorphic oracle; cases where K itself is not deterministic are discarded and counted.",
+ "C18": dict(level="exploration", technique="property-based testing (rapid), metamorphic: session [B0, K, K^r] typed vs session [B0, record K, replay r times] (r up to 30), emacs and vi macro styles",
+   text="Generated key scripts K (printable, control, ESC-prefixed, CSI, quoted-insert, vi command keys) are typed 1+r times in one session and recorded once + replayed r times in another; final buffer, cursor, keymap and returned line must agree. Metamorphic oracle; cases where K itself is not deterministic are discarded and counted.",
    note=RIG_NOTE + " One known finding (lone ESC followed by a key forming an ESC-prefixed binding) excluded by construction and reported from a regress case.", ref="DESIGN.md §3 C18"),
  "C19": dict(level="exploration", technique="property-based testing (rapid) + bounded-exhaustive enumeration: Unescape(Escape(s)) round trip over all single runes 0x00-0xFF, all default bindings, significant triples and random sequences; round trip of the dump commands through a second shell configured from their output; native fuzzing in the thorough tier",
    text="Round-trip oracle Unescape(Escape(s)) == s and Unescape(EscapeMacro(s)) == s, exhaustive for length 1 over 0x00-0xFF, for every sequence bound in a default shell and for triples of notation-significant runes, random beyond; plus agreement of Unescape with an independent decoder of the documented notation.",
